@@ -114,7 +114,11 @@ func deleteSpec(specs []ast.Spec, v ast.Spec) []ast.Spec {
 
 func startWithLowerCase(v *ast.Ident) {
 	if c := v.Name[0]; c >= 'A' && c <= 'Z' {
-		v.Name = string(c+('a'-'A')) + v.Name[1:]
+		name := string(c+('a'-'A')) + v.Name[1:]
+		if token.Lookup(name).IsKeyword() { // e.g. strings.Map: `strings.map` is not an identifier
+			return
+		}
+		v.Name = name
 	}
 }
 
